@@ -47,13 +47,19 @@
                       xv_legs[0].fd != xv_legs[1].fd && !xv_terminated)
 /* only bits valid on a connection socket are ever awaited (anything else makes xcm_await fail) */
 #define XV_COND_VALID (((xv_legs[0].cond | xv_legs[1].cond) & ~(XR_R | XR_S)) == 0)
-#define XF_MIRROR(r) (*(r)->src_condition == xv_legs[XS].cond && *(r)->dst_condition == xv_legs[XD].cond)
+/* (generic in the index s of the source leg; the xfwd-level contracts use s = XS) */
+#define XG_MIRROR(r, s) (*(r)->src_condition == xv_legs[s].cond && *(r)->dst_condition == xv_legs[1 - (s)].cond)
+#define XF_MIRROR(r) XG_MIRROR(r, XS)
 #define XF_LEN_OK(r) ((r)->data_len >= 0 && (r)->data_len <= XR_DATA_CAP)
 
-#define XF_AWAIT_IN  ((xv_legs[XS].cond & XR_R) != 0 && (xv_legs[XD].cond & XR_S) == 0)
-#define XF_AWAIT_OUT ((xv_legs[XS].cond & XR_R) == 0 && (xv_legs[XD].cond & XR_S) != 0)
-#define XF_AWAIT_NONE ((xv_legs[XS].cond & XR_R) == 0 && (xv_legs[XD].cond & XR_S) == 0)
-#define XF_INTEREST(r) (XF_LEN_OK(r) && ((r)->data_len == 0 ? XF_AWAIT_IN : XF_AWAIT_OUT))
+#define XG_AWAIT_IN(s)   ((xv_legs[s].cond & XR_R) != 0 && (xv_legs[1 - (s)].cond & XR_S) == 0)
+#define XG_AWAIT_OUT(s)  ((xv_legs[s].cond & XR_R) == 0 && (xv_legs[1 - (s)].cond & XR_S) != 0)
+#define XG_AWAIT_NONE(s) ((xv_legs[s].cond & XR_R) == 0 && (xv_legs[1 - (s)].cond & XR_S) == 0)
+#define XG_INTEREST(r, s) (XF_LEN_OK(r) && ((r)->data_len == 0 ? XG_AWAIT_IN(s) : XG_AWAIT_OUT(s)))
+#define XF_AWAIT_IN  XG_AWAIT_IN(XS)
+#define XF_AWAIT_OUT XG_AWAIT_OUT(XS)
+#define XF_AWAIT_NONE XG_AWAIT_NONE(XS)
+#define XF_INTEREST(r) XG_INTEREST(r, XS)
 #define XF_OTHER_KEPT ((xv_legs[XS].cond & ~XR_R) == (__CPROVER_old(xv_legs[XS].cond) & ~XR_R) && \
                        (xv_legs[XD].cond & ~XR_S) == (__CPROVER_old(xv_legs[XD].cond) & ~XR_S))
 #define XF_SAME(x) ((x) == __CPROVER_old(x))
@@ -74,7 +80,8 @@
                                XV_EV_CB(&(r)->e) == xfwd_active && XV_EV_ARG(&(r)->e) == (void *)(r) && (r)->e.ev_base == (r)->event_base && \
                                (XV_EV_FLAGS(&(r)->e) & EVLIST_INIT) != 0)
 #define XF_EV1_OK(r, e, leg) (XF_EV1_SET(r, e, leg) && (XV_EV_FLAGS(&(r)->e) & EVLIST_INSERTED) != 0)
-#define XF_EV_OK(r) (XF_EV1_OK(r, src_event, XS) && XF_EV1_OK(r, dst_event, XD))
+#define XG_EV_OK(r, s) (XF_EV1_OK(r, src_event, s) && XF_EV1_OK(r, dst_event, 1 - (s)))
+#define XF_EV_OK(r) XG_EV_OK(r, XS)
 #define XF_EV_OFF(r) ((XV_EV_FLAGS(&(r)->src_event) & EVLIST_INSERTED) == 0 && (XV_EV_FLAGS(&(r)->dst_event) & EVLIST_INSERTED) == 0)
 #define XF_EV_SAME(r) (XF_SAME(XV_EV_FLAGS(&(r)->src_event)) && XF_SAME(XV_EV_FLAGS(&(r)->dst_event)) && XF_SAME(xv_ev_pending))
 
@@ -246,7 +253,8 @@ __CPROVER_ensures(XF_SEND_TERM(relay))
 #define XA_IDLE(len) ((len) == 0)
 #define XA_ON_SRC (fd == xv_legs[XS].fd)
 /* what a running direction looks like between two steps */
-#define XF_RUNNING_INV(r) ((r)->running && XF_EV_OK(r) && XF_INTEREST(r) && XF_MIRROR(r) && xv_ev_pending >= 2)
+#define XG_RUNNING_INV(r, s) ((r)->running && XG_EV_OK(r, s) && XG_INTEREST(r, s) && XG_MIRROR(r, s) && xv_ev_pending >= 2)
+#define XF_RUNNING_INV(r) XG_RUNNING_INV(r, XS)
 
 static void xfwd_active(int fd, short ev, void *arg)
 __CPROVER_requires(XF_FRESH(XA(arg)) && XF_CONDS_FRESH(XA(arg)))
@@ -319,6 +327,202 @@ __CPROVER_ensures(!relay->running && XF_EV_OFF(relay) && XF_MIRROR(relay) && XV_
 /* PO[C20] xfwd_stop.other_direction_kept */
 __CPROVER_ensures(XF_OTHER_KEPT)
 ;
+
+/* ==== struct xrelay: the two directions together ====================================================================== */
+/* fwd0 relays leg 0 -> leg 1, fwd1 relays leg 1 -> leg 0; they share cond0 (what leg 0 awaits) and cond1 (leg 1) */
+#define XR_WIRED1(rl, f, s, c_src, c_dst) ((rl)->f.src_conn == XV_CONN(s) && (rl)->f.dst_conn == XV_CONN(1 - (s)) && \
+        (rl)->f.src_condition == &(rl)->c_src && (rl)->f.dst_condition == &(rl)->c_dst && \
+        (rl)->f.err_cb == xrelay_fwd_term && (rl)->f.err_cb_data == (void *)(rl))
+#define XR_WIRED(rl) (XR_WIRED1(rl, fwd0, 0, cond0, cond1) && XR_WIRED1(rl, fwd1, 1, cond1, cond0))
+#define XR_MIRROR(rl) ((rl)->cond0 == xv_legs[0].cond && (rl)->cond1 == xv_legs[1].cond)
+#define XR_DIR_STATE(rl, f, s) ((rl)->f.running ? (XG_RUNNING_INV(&(rl)->f, s) && XV_LEGS_LIVE) : XF_EV_OFF(&(rl)->f))
+#define XR_STATE(rl) (XR_WIRED(rl) && XR_MIRROR(rl) && XV_COND_VALID && XF_LEN_OK(&(rl)->fwd0) && XF_LEN_OK(&(rl)->fwd1) && \
+                      XR_DIR_STATE(rl, fwd0, 0) && XR_DIR_STATE(rl, fwd1, 1))
+#define XR_B2I(b) ((b) ? 1 : 0)
+
+/* ---- xrelay_create -------------------------------------------------------------------------------------------------- */
+struct xrelay *xrelay_create(struct xcm_socket *conn0, struct xcm_socket *conn1, xrelay_err_cb err_cb, void *cb_data,
+                             struct event_base *event_base)
+__CPROVER_requires(1)
+__CPROVER_assigns()
+/* PO[C20] xrelay_create.wiring: a fresh relay; direction 0 goes conn0 -> conn1, direction 1 conn1 -> conn0; both share the two condition words crosswise; both report to xrelay_fwd_term with the relay as cookie */
+__CPROVER_ensures(__CPROVER_is_fresh(__CPROVER_return_value, sizeof(struct xrelay)) && \
+    __CPROVER_return_value->fwd0.src_conn == conn0 && __CPROVER_return_value->fwd0.dst_conn == conn1 && \
+    __CPROVER_return_value->fwd1.src_conn == conn1 && __CPROVER_return_value->fwd1.dst_conn == conn0 && \
+    __CPROVER_return_value->fwd0.src_condition == &__CPROVER_return_value->cond0 && __CPROVER_return_value->fwd0.dst_condition == &__CPROVER_return_value->cond1 && \
+    __CPROVER_return_value->fwd1.src_condition == &__CPROVER_return_value->cond1 && __CPROVER_return_value->fwd1.dst_condition == &__CPROVER_return_value->cond0 && \
+    __CPROVER_return_value->fwd0.err_cb == xrelay_fwd_term && __CPROVER_return_value->fwd0.err_cb_data == (void *)__CPROVER_return_value && \
+    __CPROVER_return_value->fwd1.err_cb == xrelay_fwd_term && __CPROVER_return_value->fwd1.err_cb_data == (void *)__CPROVER_return_value && \
+    __CPROVER_return_value->fwd0.event_base == event_base && __CPROVER_return_value->fwd1.event_base == event_base && \
+    __CPROVER_return_value->err_cb == err_cb && __CPROVER_return_value->err_cb_data == cb_data)
+/* PO[C20] xrelay_create.initial_state: nothing held, nothing awaited, not running, no event pending */
+__CPROVER_ensures(__CPROVER_return_value->fwd0.data_len == 0 && __CPROVER_return_value->fwd1.data_len == 0 && \
+    !__CPROVER_return_value->fwd0.running && !__CPROVER_return_value->fwd1.running && !__CPROVER_return_value->running && \
+    __CPROVER_return_value->cond0 == 0 && __CPROVER_return_value->cond1 == 0 && \
+    XF_EV_OFF(&__CPROVER_return_value->fwd0) && XF_EV_OFF(&__CPROVER_return_value->fwd1))
+;
+
+/* ---- xrelay_fwd_term: the real termination callback of both directions ------------------------------------------------ */
+static void xrelay_fwd_term(int reason, const char *msg, void *cb_data)
+__CPROVER_requires(__CPROVER_rw_ok((struct xrelay *)cb_data, sizeof(struct xrelay)) && ((struct xrelay *)cb_data)->err_cb == xv_relay_cb && \
+                   (xv_cb_frees ==> __CPROVER_is_freeable(cb_data)) && XV_RCNT_OK(xv_rcb_calls))
+__CPROVER_assigns(xv_rcb_calls, xv_rcb_relay, xv_rcb_reason, xv_rcb_msg, xv_rcb_data, xv_terminated)
+__CPROVER_frees(cb_data)
+/* PO[C20] xrelay_fwd_term.passed_on_once: the relay's user is told exactly once, about this relay, with the reason, the text and its own cookie */
+__CPROVER_ensures(xv_rcb_calls == __CPROVER_old(xv_rcb_calls) + 1 && xv_rcb_relay == (struct xrelay *)cb_data && xv_rcb_reason == reason && \
+                  xv_rcb_msg == msg && xv_rcb_data == __CPROVER_old(((struct xrelay *)cb_data)->err_cb_data) && xv_terminated)
+;
+
+/* ---- xrelay_start / xrelay_stop / xrelay_destroy ------------------------------------------------------------------------ */
+#define XR_EV_ASSIGNS(rl) (rl)->fwd0.src_event, (rl)->fwd0.dst_event, (rl)->fwd1.src_event, (rl)->fwd1.dst_event, \
+                          (rl)->fwd0.running, (rl)->fwd1.running, xv_ev_pending
+#define XR_COND_ASSIGNS(rl) (rl)->cond0, (rl)->cond1, xv_legs[0].cond, xv_legs[1].cond, xv_aw_calls
+int xrelay_start(struct xrelay *relay)
+__CPROVER_requires(__CPROVER_rw_ok(relay, sizeof(*relay)) && XV_LEGS_OPEN && XV_RELAY_GHOST_RANGE && XR_STATE(relay))
+__CPROVER_assigns(xv_errno, xv_sb_calls, xv_legs[0].blocking, xv_legs[1].blocking, XR_EV_ASSIGNS(relay), \
+                  xv_ev_add_calls, xv_ev_assign_calls, xv_ev_add_failed, XR_COND_ASSIGNS(relay))
+__CPROVER_ensures((__CPROVER_return_value == 0 || __CPROVER_return_value == -1) && XV_RELAY_GHOST_RANGE_OUT)
+/* PO[C20] xrelay_start.both_directions: success => both directions run, each with the interest that fits what it holds */
+__CPROVER_ensures(__CPROVER_return_value == 0 ==> (relay->fwd0.running && relay->fwd1.running && XV_LEGS_LIVE && XR_MIRROR(relay) && \
+                                                   XG_INTEREST(&relay->fwd0, 0) && XG_INTEREST(&relay->fwd1, 1)))
+/* PO[C20] xrelay_start.disjoint_bits: what each leg awaits is exactly the union of the two directions' needs: RECEIVABLE iff the direction reading from it is empty, SENDABLE iff the direction writing to it holds something */
+__CPROVER_ensures(__CPROVER_return_value == 0 ==> ( \
+    xv_legs[0].cond == ((relay->fwd0.data_len == 0 ? XR_R : 0) | (relay->fwd1.data_len > 0 ? XR_S : 0)) && \
+    xv_legs[1].cond == ((relay->fwd1.data_len == 0 ? XR_R : 0) | (relay->fwd0.data_len > 0 ? XR_S : 0))))
+/* PO[C20] xrelay_start.events_registered */
+__CPROVER_ensures(__CPROVER_return_value == 0 ==> (XG_EV_OK(&relay->fwd0, 0) && XG_EV_OK(&relay->fwd1, 1)))
+/* PO[C20] xrelay_start.failure: only a leg that cannot be made non-blocking makes the start fail, and then before anything was registered or awaited */
+__CPROVER_ensures(__CPROVER_return_value == -1 ==> (XF_COND_SAME && XF_SAME(xv_ev_pending) && XF_SAME(relay->fwd0.running) && XF_SAME(relay->fwd1.running) && \
+                                                    XF_SAME(XV_EV_FLAGS(&relay->fwd0.src_event)) && XF_SAME(XV_EV_FLAGS(&relay->fwd0.dst_event)) && \
+                                                    XF_SAME(XV_EV_FLAGS(&relay->fwd1.src_event)) && XF_SAME(XV_EV_FLAGS(&relay->fwd1.dst_event)) && \
+                                                    XR_MIRROR(relay) && (xv_legs[0].blocking || xv_legs[1].blocking)))
+;
+
+void xrelay_stop(struct xrelay *relay)
+__CPROVER_requires(__CPROVER_rw_ok(relay, sizeof(*relay)) && XV_LEGS_OPEN && XV_RELAY_GHOST_RANGE && XR_STATE(relay))
+__CPROVER_assigns(XR_EV_ASSIGNS(relay), xv_ev_del_calls, XR_COND_ASSIGNS(relay))
+__CPROVER_ensures(XV_RELAY_GHOST_RANGE_OUT)
+/* PO[C20] xrelay_stop.stopped: neither direction runs, none of their events is pending, a direction that ran awaits nothing any more; held messages (frame) are kept */
+__CPROVER_ensures(!relay->fwd0.running && !relay->fwd1.running && XF_EV_OFF(&relay->fwd0) && XF_EV_OFF(&relay->fwd1) && XR_MIRROR(relay) && XV_COND_VALID && \
+                  xv_ev_pending == __CPROVER_old(xv_ev_pending) - 2 * XR_B2I(__CPROVER_old(relay->fwd0.running)) - 2 * XR_B2I(__CPROVER_old(relay->fwd1.running)) && \
+                  (__CPROVER_old(relay->fwd0.running) ==> XG_AWAIT_NONE(0)) && (__CPROVER_old(relay->fwd1.running) ==> XG_AWAIT_NONE(1)) && \
+                  ((!__CPROVER_old(relay->fwd0.running) && !__CPROVER_old(relay->fwd1.running)) ==> XF_COND_SAME))
+;
+
+/* (__CPROVER_was_freed cannot be used in a contract that is REPLACED -- DFCC rejects it when the pointer may be NULL -- so the
+ * rserver jobs, which replace xrelay_destroy, assume the contract without that conjunct; job relay.xrelay_destroy proves it) */
+#ifdef XV_RSERVER
+#define XR_WAS_FREED(p) 1
+#else
+#define XR_WAS_FREED(p) __CPROVER_was_freed(p)
+#endif
+void xrelay_destroy(struct xrelay *relay)
+__CPROVER_requires(relay == NULL || (__CPROVER_rw_ok(relay, sizeof(*relay)) && __CPROVER_is_freeable(relay) && XV_LEGS_OPEN && XV_RELAY_GHOST_RANGE_OUT && XR_STATE(relay)))
+__CPROVER_assigns(relay != NULL: XR_EV_ASSIGNS(relay), xv_ev_del_calls, XR_COND_ASSIGNS(relay), xv_close_calls, xv_close_unflushed, xv_legs[0].closed, xv_legs[1].closed)
+__CPROVER_frees(relay)
+__CPROVER_ensures(XV_RELAY_GHOST_RANGE_OUT)
+/* PO[C20] xrelay_destroy.released: both connections closed, each exactly once; no event of the relay left pending in the event base (it would point into freed memory); the relay freed; NULL is a no-op */
+__CPROVER_ensures(relay == NULL ? (XF_SAME(xv_close_calls) && XF_SAME(xv_ev_pending)) \
+    : (xv_close_calls == __CPROVER_old(xv_close_calls) + 2 && xv_legs[0].closed && xv_legs[1].closed && XR_WAS_FREED(relay) && \
+       xv_ev_pending == __CPROVER_old(xv_ev_pending) - 2 * XR_B2I(__CPROVER_old(relay->fwd0.running)) - 2 * XR_B2I(__CPROVER_old(relay->fwd1.running))))
+/* PO[C20] xrelay_destroy.flush_before_close: "the other side sees the close only after the messages": no connection is closed while output that xcm_send accepted is still buffered in XCM (xcm.h, "Buffer Flush Before Close") */
+__CPROVER_ensures(!__CPROVER_old(xv_close_unflushed) ==> !xv_close_unflushed)
+;
+
+#ifdef XV_RSERVER
+/* ==== rserver.c: accepting connections, pairing them, terminating relays ================================================ */
+/* The xrelay_* functions are REPLACED by the contracts above.  rserver_num_relays (a walk over the list of live relays) is
+ * cut by an ASSUMED contract returning any count: both sides of every `== MAX_RELAYS` test are explored, the list walk
+ * itself is not verified (it would need an inductive list predicate). */
+static size_t rserver_num_relays(struct rserver *server)
+__CPROVER_requires(1)
+__CPROVER_assigns()
+__CPROVER_ensures(1)
+;
+#define RS(arg) ((struct rserver *)(arg))
+#define RS_HEAD(sv) ((sv)->relays.lh_first)
+/* the listening socket is entry XV_SRV of the socket table: open, non-blocking; the two slots for the connections to come are free */
+#define RS_SHAPE(sv) (__CPROVER_rw_ok((sv), sizeof(struct rserver)) && xv_srv_present && (sv)->server_socket == XV_CONN(XV_SRV) && \
+                      !xv_legs[XV_SRV].closed && !xv_legs[XV_SRV].blocking && xv_legs[XV_SRV].fd >= 0 && !xv_terminated && \
+                      ((sv)->fatal_cb == NULL || (sv)->fatal_cb == xv_fatal_cb) && \
+                      (xv_legs[XV_SRV].cond & ~XCM_SO_ACCEPTABLE) == 0)
+/* the list of live relays: empty, or its first element is a valid relay that points back at the list head */
+#define RS_LIST(sv) (RS_HEAD(sv) == NULL || (__CPROVER_rw_ok(RS_HEAD(sv), sizeof(struct xrelay)) && RS_HEAD(sv)->entry.le_prev == &RS_HEAD(sv)))
+#define RS_SLOTS_FREE (!xv_legs[0].exists && !xv_legs[1].exists && xv_legs[0].fd >= 0 && xv_legs[1].fd >= 0 && xv_legs[0].fd != xv_legs[1].fd)
+#define RS_CNT_OK (XV_RELAY_GHOST_RANGE && XV_RCNT_OK(xv_accept_calls) && XV_RCNT_OK(xv_connect_calls) && XV_RCNT_OK(xv_fatal_calls))
+/* a connection that came into being is either closed again or owned by the relay now at the head of the list */
+#define RS_INSERTED(sv, oldhead) (RS_HEAD(sv) != (oldhead))
+#define RS_NO_LEAK(sv, oldhead) ((xv_legs[0].exists ==> (xv_legs[0].closed != RS_INSERTED(sv, oldhead))) && \
+                                 (xv_legs[1].exists ==> (xv_legs[1].closed != RS_INSERTED(sv, oldhead))))
+
+static void rserver_accept(int fd, short ev, void *arg)
+__CPROVER_requires(RS_SHAPE(RS(arg)) && RS_LIST(RS(arg)) && RS_SLOTS_FREE && RS_CNT_OK && !xv_close_unflushed)
+__CPROVER_assigns(xv_errno, XF_FIN_ASSIGNS, xv_legs[XV_SRV].pending_out, xv_aw_calls, xv_legs[XV_SRV].cond, xv_accept_calls, xv_connect_calls, xv_fatal_calls, xv_fatal_data, \
+                  __CPROVER_object_whole(&xv_legs), xv_close_calls, xv_close_unflushed, xv_sb_calls, xv_ev_pending, xv_ev_add_calls, xv_ev_assign_calls, xv_ev_del_calls, xv_ev_add_failed, \
+                  RS_HEAD(RS(arg)))
+__CPROVER_assigns(RS_HEAD(RS(arg)) != NULL: RS_HEAD(RS(arg))->entry.le_prev)
+/* PO[C20] rserver_accept.no_connection_leaked: on every path, each connection socket that was created is either closed (exactly once) or owned by a relay that was inserted in the list */
+__CPROVER_ensures(RS_NO_LEAK(RS(arg), __CPROVER_old(RS_HEAD(RS(arg)))) && xv_close_calls <= __CPROVER_old(xv_close_calls) + 2)
+/* PO[C20] rserver_accept.paired_and_running: a relay is inserted only if both connections exist and have the same service type; it relays exactly these two, runs in both directions, and heads the list with the old list behind it */
+__CPROVER_ensures(RS_INSERTED(RS(arg), __CPROVER_old(RS_HEAD(RS(arg)))) ==> ( \
+    xv_legs[0].exists && xv_legs[1].exists && xv_legs[0].bytestream == xv_legs[1].bytestream && \
+    RS_HEAD(RS(arg))->fwd0.src_conn == XV_CONN(0) && RS_HEAD(RS(arg))->fwd0.dst_conn == XV_CONN(1) && \
+    RS_HEAD(RS(arg))->fwd1.src_conn == XV_CONN(1) && RS_HEAD(RS(arg))->fwd1.dst_conn == XV_CONN(0) && \
+    RS_HEAD(RS(arg))->fwd0.running && RS_HEAD(RS(arg))->fwd1.running && \
+    RS_HEAD(RS(arg))->err_cb == rserver_terminate_relay && RS_HEAD(RS(arg))->err_cb_data == arg && \
+    RS_HEAD(RS(arg))->entry.le_next == __CPROVER_old(RS_HEAD(RS(arg))) && RS_HEAD(RS(arg))->entry.le_prev == &RS_HEAD(RS(arg)) && \
+    (__CPROVER_old(RS_HEAD(RS(arg))) != NULL ==> __CPROVER_old(RS_HEAD(RS(arg)))->entry.le_prev == &RS_HEAD(RS(arg))->entry.le_next) && \
+    xv_fatal_calls == __CPROVER_old(xv_fatal_calls)))
+/* PO[C20] rserver_accept.mismatch_is_fatal_not_relayed: connections of different service types are never relayed: both are closed and the owner is told (once) */
+__CPROVER_ensures((xv_legs[0].exists && xv_legs[1].exists && xv_legs[0].bytestream != xv_legs[1].bytestream) ==> \
+    (!RS_INSERTED(RS(arg), __CPROVER_old(RS_HEAD(RS(arg)))) && xv_legs[0].closed && xv_legs[1].closed && \
+     xv_fatal_calls == __CPROVER_old(xv_fatal_calls) + (RS(arg)->fatal_cb != NULL ? 1 : 0)))
+/* PO[C20] rserver_accept.one_accept_or_finish: each activation either accepts (at most one connection) or, at the administrative limit, finishes outstanding work on the listening socket as the API demands */
+__CPROVER_ensures((xv_accept_calls == __CPROVER_old(xv_accept_calls) + 1 && XF_SAME(xv_fin_calls)) || \
+                  (XF_SAME(xv_accept_calls) && XF_SAME(xv_connect_calls) && xv_fin_calls == __CPROVER_old(xv_fin_calls) + 1 && xv_fin_conn == XV_CONN(XV_SRV) && \
+                   !RS_INSERTED(RS(arg), __CPROVER_old(RS_HEAD(RS(arg))))))
+;
+
+static void rserver_terminate_relay(struct xrelay *relay, int reason, const char *msg, void *cb_data)
+/* the relay is an element of the server's list: its back pointer is writable and points at it; its successor, if any, is valid */
+__CPROVER_requires(RS_SHAPE(RS(cb_data)) && RS_CNT_OK && xv_legs[0].exists && xv_legs[1].exists)
+__CPROVER_requires(__CPROVER_rw_ok(relay, sizeof(*relay)) && __CPROVER_is_freeable(relay) && XV_LEGS_OPEN && XR_STATE(relay))
+__CPROVER_requires(__CPROVER_rw_ok(relay->entry.le_prev, sizeof(struct xrelay *)) && *relay->entry.le_prev == relay && \
+                   (relay->entry.le_next == NULL || (__CPROVER_rw_ok(relay->entry.le_next, sizeof(struct xrelay)) && \
+                                                      relay->entry.le_next->entry.le_prev == &relay->entry.le_next)))
+__CPROVER_assigns(xv_errno, xv_aw_calls, __CPROVER_object_whole(&xv_legs), xv_close_calls, xv_close_unflushed, xv_ev_pending, xv_ev_del_calls, \
+                  *relay->entry.le_prev, XR_EV_ASSIGNS(relay), relay->cond0, relay->cond1)
+__CPROVER_assigns(relay->entry.le_next != NULL: relay->entry.le_next->entry.le_prev)
+__CPROVER_frees(relay)
+/* PO[C20] rserver_terminate_relay.unlinked_and_released: the relay is taken out of the list (its neighbours are linked to each other), both its connections are closed, it is freed; nothing else is closed */
+__CPROVER_ensures(*__CPROVER_old(relay->entry.le_prev) == __CPROVER_old(relay->entry.le_next) && \
+                  (__CPROVER_old(relay->entry.le_next) != NULL ==> __CPROVER_old(relay->entry.le_next)->entry.le_prev == __CPROVER_old(relay->entry.le_prev)) && \
+                  xv_legs[0].closed && xv_legs[1].closed && !xv_legs[XV_SRV].closed && xv_close_calls == __CPROVER_old(xv_close_calls) + 2 && __CPROVER_was_freed(relay))
+;
+
+int rserver_start(struct rserver *server)
+__CPROVER_requires(RS_SHAPE(server) && RS_CNT_OK)
+__CPROVER_requires(server->running ? (XV_EV_FLAGS(&server->server_socket_event) & (EVLIST_INIT | EVLIST_INSERTED)) == (EVLIST_INIT | EVLIST_INSERTED) \
+                                   : (XV_EV_FLAGS(&server->server_socket_event) & EVLIST_INSERTED) == 0)
+__CPROVER_assigns(xv_errno, xv_aw_calls, xv_legs[XV_SRV].cond, server->server_socket_event, server->running, xv_ev_pending, xv_ev_add_calls, xv_ev_assign_calls, xv_ev_add_failed)
+/* PO[C20] rserver_start.listening: the server awaits connections and its descriptor is watched, dispatching to rserver_accept with the server */
+__CPROVER_ensures(__CPROVER_return_value == 0 && server->running && \
+    (!__CPROVER_old(server->running) ==> (xv_legs[XV_SRV].cond == XCM_SO_ACCEPTABLE && \
+        (XV_EV_FLAGS(&server->server_socket_event) & (EVLIST_INIT | EVLIST_INSERTED)) == (EVLIST_INIT | EVLIST_INSERTED) && \
+        server->server_socket_event.ev_fd == xv_legs[XV_SRV].fd && XV_EV_CB(&server->server_socket_event) == rserver_accept && \
+        XV_EV_ARG(&server->server_socket_event) == (void *)server && server->server_socket_event.ev_events == (EV_READ | EV_PERSIST))))
+;
+
+void rserver_stop(struct rserver *server)
+__CPROVER_requires(RS_SHAPE(server) && RS_CNT_OK)
+__CPROVER_requires(server->running ? (XV_EV_FLAGS(&server->server_socket_event) & (EVLIST_INIT | EVLIST_INSERTED)) == (EVLIST_INIT | EVLIST_INSERTED) \
+                                   : (XV_EV_FLAGS(&server->server_socket_event) & EVLIST_INSERTED) == 0)
+__CPROVER_assigns(xv_errno, xv_aw_calls, xv_legs[XV_SRV].cond, server->server_socket_event, server->running, xv_ev_pending, xv_ev_del_calls)
+/* PO[C20] rserver_stop.not_listening: no new connections are awaited or dispatched; live relays are not touched (frame) */
+__CPROVER_ensures(!server->running && (XV_EV_FLAGS(&server->server_socket_event) & EVLIST_INSERTED) == 0 && \
+                  (__CPROVER_old(server->running) ==> xv_legs[XV_SRV].cond == 0))
+;
+#endif
 
 #include "contracts/end.h"
 #endif
